@@ -182,6 +182,10 @@ HAND_TEXTS = [
     ['show($In) :- $In = [$H | $T], print(%s, $H), nl, show($T).', 'show([]) :- print(------------), nl.'],
     ['data([27,74,17,33,94]).'],
     ['check($Pr, $V) :- print(" --> \'%s\' and \'%s\' do not agree.", $Pr, $V).'],
+    # comment characters as ordinary text inside brackets, at places where a line may break
+    ['tagged(post1, #rust, prolog).', 'enc([a, %20, b], %s., $R).', 'share(x, //server/share, y).'],
+    # non-ASCII text (bytes and characters differ)
+    ['city(\u6e0b\u8c37, \u6771\u4eac).', 'p\u00e8re(\u00c9ric, Zo\u00e9) :- m\u00e8re(Zo\u00e9, $X), $X = "\u00e9# x".'],
 ]
 
 # ---------------------------------------------------------------- cases
